@@ -2,6 +2,7 @@ package checks
 
 import (
 	"fmt"
+	"net/http"
 	"time"
 
 	"github.com/crewjam/saml"
@@ -292,6 +293,112 @@ func runC02(c *core.Ctx) {
 						c.Case(key, func(t *core.T) { runOne(t, s, tl, key) })
 					}
 				}
+			}
+		}
+	}
+
+	// the other side of every window is unconstrained by the statement: an IssueInstant ahead of the SP's clock (IdP clock running fast),
+	// a NotBefore long past, an expiry far in the future are all "strictly inside" and must be accepted
+	c.Group("open-side-of-each-window")
+	for _, tl := range tols[:2] {
+		for mask := 0; mask < 32; mask++ {
+			for _, lay := range layouts {
+				for _, far := range []bool{false, true} {
+					tl, mask, lay, far := tl, mask, lay, far
+					key := fmt.Sprintf("openside/tol=%s/mask=%05b/far=%v/lay=%s", tl.name, mask, far, lay)
+					c.Case(key, func(t *core.T) {
+						t.NonTrivial()
+						saml.MaxIssueDelay, saml.MaxClockSkew = tl.delay, tl.skew
+						ahead := tl.delay + tl.skew/2 // beyond MaxIssueDelay on the future side, NotBefore below stays within the skew
+						if far {
+							ahead = tl.delay + 1000*time.Hour
+						}
+						val := func(kind int) time.Time {
+							if mask&(1<<uint(kind)) == 0 {
+								return instantAt(kind, posFarIn, now, tl)
+							}
+							switch kind {
+							case kRespII, kAssII:
+								return now.Add(ahead)
+							case kNB:
+								return now.Add(-20 * 365 * 24 * time.Hour)
+							default:
+								return now.Add(20 * 365 * 24 * time.Hour)
+							}
+						}
+						resp := samlgen.DefaultResponse()
+						resp.IssueInstant = samlgen.S(std(val(kRespII)))
+						a := samlgen.DefaultAssertion()
+						a.IssueInstant = samlgen.S(std(val(kAssII)))
+						a.NotBefore = samlgen.S(std(val(kNB)))
+						a.NotOnOrAfter = samlgen.S(std(val(kNOOA)))
+						a.Confirmations[0].NotOnOrAfter = samlgen.S(std(val(kSCD)))
+						doc := samlgen.Doc(harness.BuildResponse(resp, []*samlgen.Assertion{a}, lay, idp1(), spKey()))
+						got, err := parseXML(sp, doc, []string{samlgen.ReqID})
+						t.Impl(1)
+						checkAPIContract(t, got, err)
+						t.Outcome(harness.ErrClass(err))
+						judge(t, core.MustAccept, err, "C02/open-side", key)
+						if t.Failed() {
+							t.Input("response_xml", string(doc))
+							t.Input("now", now.Format(time.RFC3339Nano))
+						}
+					})
+				}
+			}
+		}
+	}
+
+	// artifact resolution over HTTP with a clock that advances while the SP waits for the IdP: the windows are judged at a reading
+	// taken when the response is there, not before it was fetched
+	c.Group("artifact-clock-advances-during-resolution")
+	for _, tl := range tols[:2] {
+		for _, adv := range []string{"none", "past-issue-delay", "past-expiry", "tiny"} {
+			for _, outer := range []bool{false, true} {
+				tl, adv, outer := tl, adv, outer
+				key := fmt.Sprintf("artifact-http/tol=%s/clock-advance=%s/outerSigned=%v", tl.name, adv, outer)
+				c.Case(key, func(t *core.T) {
+					t.NonTrivial()
+					saml.MaxIssueDelay, saml.MaxClockSkew = tl.delay, tl.skew
+					harness.SetNow(now)
+					defer harness.SetNow(now)
+					// everything issued at "now" and valid for 5 minutes beyond; IssueInstants exactly now
+					var d time.Duration
+					v := core.MustAccept
+					switch adv {
+					case "past-issue-delay":
+						d, v = tl.delay+time.Second, core.MustReject
+					case "past-expiry":
+						d, v = 5*time.Minute+tl.skew+tl.delay+time.Second, core.MustReject
+					case "tiny":
+						d = time.Millisecond
+					}
+					resp := samlgen.DefaultResponse()
+					resp.IssueInstant = samlgen.S(std(now))
+					a := samlgen.DefaultAssertion()
+					a.IssueInstant = samlgen.S(std(now))
+					a.NotBefore = samlgen.S(std(now.Add(-time.Minute)))
+					a.NotOnOrAfter = samlgen.S(std(now.Add(5 * time.Minute)))
+					a.Confirmations[0].NotOnOrAfter = a.NotOnOrAfter
+					inner := harness.BuildResponse(resp, []*samlgen.Assertion{a}, harness.Layout{SignResponse: !outer}, idp1(), spKey())
+					var sent []byte
+					got, err := parseArtifact(sp, []string{samlgen.ReqID}, func(resolveID string, body []byte) (*http.Response, error) {
+						ar := harness.ArtifactResponseEl("id-artresp-1", resolveID, std(now), samlgen.S(samlgen.IDPEntity), samlgen.StatusOK, inner)
+						if outer {
+							samlgen.Sign(ar, idp1(), "")
+						}
+						sent = samlgen.Doc(harness.SoapEnvelope(ar))
+						harness.SetNow(now.Add(d)) // the IdP took its time
+						return httpOK(sent)
+					})
+					t.Impl(1)
+					checkAPIContract(t, got, err)
+					t.Outcome(harness.ErrClass(err))
+					judge(t, v, err, "C02/artifact-http-window", key)
+					if t.Failed() {
+						t.Input("soap_xml", string(sent))
+					}
+				})
 			}
 		}
 	}
